@@ -7,6 +7,9 @@ Applies each patch to /repo (git apply), runs the checks, undoes it (git checkou
 and updates checks_quick / caught_by in the change's meta.json.  Prints a summary table
 (also written to seeded/SUMMARY.md when no filter is given).
 """
+import os as _os
+_os.environ["MCTP_NO_EVIDENCE"] = "1"  # runs against modified trees must never overwrite /verif/evidence
+
 import json, os, subprocess, sys, time, glob
 VERIF = os.path.dirname(os.path.dirname(os.path.abspath(__file__)))
 REPO = "/repo"
